@@ -108,9 +108,10 @@ fn install_panic_hook() {
         let loc = info.location().map(|l| format!("{}:{}", l.file(), l.line())).unwrap_or_default();
         PANIC_MSG.with(|m| *m.borrow_mut() = format!("{msg} at {loc}"));
     }));
+    #[cfg(not(miri))]
     unsafe {
         for sig in [6, 11, 4, 7] {
-            signal(sig, on_fatal_signal as usize);
+            signal(sig, on_fatal_signal as *const () as usize);
         }
     }
 }
@@ -355,6 +356,7 @@ fn cmd_run(a: &Args, sweep: bool) -> i32 {
     let threads = a.num("threads", 16).max(1) as usize;
     let budget = a.num("shrink-budget", 4000) as usize;
     let replay_dir = a.get("replay-dir").unwrap_or("../replays").to_string();
+    let progress = a.get("progress").is_some();
     let out_path = a.get("out").map(|s| s.to_string());
     let profiles: Vec<String> = a
         .get("profiles")
@@ -401,6 +403,9 @@ fn cmd_run(a: &Args, sweep: bool) -> i32 {
                     while i < start + runs {
                         if i > shared.stop_after.load(Ordering::SeqCst) {
                             break;
+                        }
+                        if progress {
+                            eprintln!("RUN {i}");
                         }
                         if sweep {
                             sweep_one(seed, i, &prop, &shared, &mut out);
